@@ -203,7 +203,7 @@ def oracle(case, date, sh, ctx):
 def unit_shard(desc):
     sh = core.Shard()
     known = core.load_known(PROP)
-    conv = {name: getattr(tc, name) for name in tc._time_conversion_functions}
+    conv = {f"{a}_to_{b}": getattr(tc, f"{a}_to_{b}") for a in "ymwd" for b in "ymwd" if a != b and hasattr(tc, f"{a}_to_{b}")}
     floats = st.one_of(st.floats(allow_nan=False, allow_infinity=False, width=64),
                        st.floats(-1e7, 1e7), st.sampled_from([0.0, -0.0, 1.0, 450.0, 5e-324, 1e308, -1e308, 12.0, 365.25]))
 
@@ -242,7 +242,7 @@ def replay(case):
     if case.get("kind") == "unit":
         x = case["x"]
         out = []
-        for name in tc._time_conversion_functions:
+        for name in [f"{a}_to_{b}" for a in "ymwd" for b in "ymwd" if a != b and hasattr(tc, f"{a}_to_{b}")]:
             a, b = name.split("_to_")
             exp = x * PER_Y[a] / PER_Y[b]  # x_y = 12 x_m = (365.25/7) x_w = 365.25 x_d
             got = getattr(tc, name)(x)
